@@ -265,6 +265,7 @@ def HistOk : Server → List WOp → Prop
     (match op with
      | .create ns a => CreateOk sv.repo ns a
      | .modify ns p chg => ModifyOk sv ns p chg
-     | .delete _ _ => True) ∧ HistOk (stepW sv op) ops
+     | .delete _ _ => True
+     | .deleteClass _ _ => True) ∧ HistOk (stepW sv op) ops
 
 end C13
